@@ -3,6 +3,7 @@ import CalicoVerif.Model.C28
 import CalicoVerif.Gen.C28
 /-! Driver for C28 (stateless). Settings: `-` absent, `nil` no BGPConfiguration, `e` empty string, else hex.
   `felix <setting>`                         → `ipip noencap <stored value>`
+  `fenv <setting> <ipip 0|1> <vxlan 0|1> <noencap 0|1>` → `progIPIP progNoEncap noEncapNeeded ipipEnabled vxlanEnabled`
   `bgp <setting>`                           → `ipip noencap`
   `pool <bgp> <ipipMode> <vxlanMode> <4|6>` → `usesIPIP usesVXLAN programsPool accept|reject`
   `pair <felix> <bgp> <ipipMode> <vxlanMode>` → `felixPrograms birdPrograms`
@@ -42,6 +43,11 @@ def modeOf : String → Option Mode
   | "other" => some .other
   | _ => none
 
+def bit : String → Option Bool
+  | "0" => some false
+  | "1" => some true
+  | _ => none
+
 def step (_ : Unit) (line : String) : Unit × String :=
   ((), match words line with
   | ["felix", f] =>
@@ -50,6 +56,12 @@ def step (_ : Unit) (line : String) : Unit × String :=
       let v := felixValue Gen.felixTable f
       s!"{showBool (felixIPIP Gen.felixTable v)} {showBool (felixNoEncap Gen.felixTable v)} {enc v}"
     | none => "bad-op"
+  | ["fenv", f, i, v, n] =>
+    match setting false f, bit i, bit v, bit n with
+    | some f, some i, some v, some n =>
+      let e := felixEnv Gen.felixTable (felixValue Gen.felixTable f) ⟨i, v, n⟩ false false false false
+      s!"{showBool e.progIPIP} {showBool e.progNoEncap} {showBool e.noEncapNeeded} {showBool e.ipipEnabled} {showBool e.vxlanEnabled}"
+    | _, _, _, _ => "bad-op"
   | ["bgp", b] =>
     match setting true b with
     | some b => let p := bgpPolicy Gen.bgpTable b; s!"{showBool p.ipip} {showBool p.noEncap}"
